@@ -33,21 +33,32 @@ from .common import Ctx
 mp.mp.dps = 50
 
 META = {
-    "rule": "kernel/negative: (kernel x parameter ladder x dtype x tensor rank 0..3), inputs from a per-kernel ladder "
-            "(0, 1e-30.., multiples 2^-20-close to and exactly at the kernel's own scale delta^2 / 1/delta^2 / a, up to "
-            "1e12 x scale, plus delta*m for Huber); fast/triggs: N = prod(batch shape) items, d in 1..6, p in 1..4, item "
-            "norms from a ladder with zero rows and rows exactly at the Huber threshold, kernels = 7 built-ins + user "
-            "polynomial kernels with rho''>0 / =0 / <0 / sign change, every corrector object is called several times; "
-            "select: all forms of kernel=/corrector= for 1..3 residuals on GN and LM. A case is non-trivial when it has a "
-            "non-zero input; distinct by (stream, kernel, dtype, rank/shape, regime flags, quantised parameter).",
-    "trusted": ["torch autograd of the kernel's forward (rho', rho'') is an external contract: the model uses the closed "
-                "forms of rho', rho'' which are *proved* to be the derivatives of the modelled forward",
-                "mpmath (oracle side only)"],
-    "assumptions": ["kernel parameters satisfy the constructors' asserts (delta > 0, a > 0, b < 0, a/|b| <= 50); Arctan: delta != 0",
+    "rule": "kernel/negative: (7 kernels x parameter ladder x dtype x tensor rank 0..3), inputs from a per-kernel ladder "
+            "(0, 1e-30.., multiples 0.9/0.99/0.999/1-2^-20/1-2^-50/1/1+2^-50/../1.1 of the kernel's own scale delta^2, "
+            "1/delta^2, a, +-4 ulp of it, up to 1e12 x scale, plus delta*m for Huber), negative stream: one negative element "
+            "(-5e-324 .. -1e6) at a random position, -0.0 tensors, clean tensors; fast/triggs: N = prod(batch shape 0..2 dims) "
+            "items, d in 1..6, p in 1..4, item norms from a ladder 0..1e4 x kernel scale with zero rows and rows exactly at / "
+            "one ulp around the Huber threshold, kernels = 7 built-ins (+ the float32 band a/|b| in 44..50 of Tolerant) + user "
+            "polynomial kernels with rho''>0 / =0 (graph-dependent and graph-constant) / <0 / sign change inside the batch "
+            "with 2x rho''/rho' from 1e-14 to 4, every corrector/kernel object is called repeatedly, half of the calls under "
+            "no_grad; select: all forms of kernel=/corrector= (None, module, list, tuple, None entries, wrong lengths) for 1..3 "
+            "residual tensors on GN and LM, two steps per optimiser. A case is non-trivial when it has a non-zero input; "
+            "distinct by (stream, kernel, dtype, rank/shape, d, p, regime, number of masked items, quantised parameter).",
+    "trusted": ["torch autograd of the kernel's forward (rho', rho'') is an external contract: the model uses closed forms of "
+                "rho', rho'' that are *proved* (HasDerivAt) to be the derivatives of the modelled forward; the fast/triggs "
+                "streams compare the real autograd-based outputs against them on every run",
+                "mpmath 50-digit closed forms (oracle side only; its derivative formulas are self-tested by numerical "
+                "differentiation at start-up)",
+                "the linear test model of the select stream (Jacobian known exactly) and a recording solver"],
+    "assumptions": ["kernel parameters satisfy the constructors' asserts (delta > 0, a > 0, b < 0) and a/|b| <= 50; Arctan: delta != 0",
                     "corrector theorems: rho' >= 0 (FastTriggs) resp. rho' > 0 (Triggs) on [0, inf); rho'' arbitrary",
-                    "IEEE rounding is not modelled: float results are compared at 64*eps*scale where scale is the largest "
-                    "intermediate magnitude of the documented formula (so rho(0)=0 and monotonicity are checked up to that)"],
-    "partial": [],
+                    "user kernels act element-wise (the model's rho is a function of one item's squared norm)"],
+    "partial": ["IEEE rounding is not modelled: the theorems are over the reals; the float clauses (closed form, rho(0)=0, "
+                "monotone, finite, both corrector identities) are *measured* on the generated inputs at 64*eps*scale, scale = "
+                "largest intermediate magnitude of the documented formula (x (|u|+1) for Tolerant's exp, x4 for the user "
+                "polynomials, plus the absolute error eps(1+|alpha|) of alpha = 1 - sqrt(1+t))",
+                "the kernel/corrector plumbing of GN/LM (__init__, RobustModel.loss, corrector index in step) is modelled and "
+                "proved consistent, but tied to optimizer.py by sampling only (select stream)"],
 }
 
 BUILTIN = ["huber", "pseudohuber", "cauchy", "softlone", "arctan", "tolerant", "scale"]
@@ -1194,9 +1205,9 @@ def run(ctx: Ctx):
 def search(ctx: Ctx):
     """after a broken proof / correspondence: the oracles alone on a larger, differently seeded population"""
     oracle_selftest()
-    for rnd in range(6):
+    for rnd in range(3):
         rng = random.Random(ctx.seed * 7919 + 104729 * (rnd + 1))
-        kernel_cases, neg_cases, corr_cases, select_cases = gen_cases(ctx, rng, scale=2.0 if ctx.quick else 1.0)
+        kernel_cases, neg_cases, corr_cases, select_cases = gen_cases(ctx, rng, scale=1.0 if ctx.quick else 0.5)
         for c in kernel_cases:
             check_kernel(ctx, c)
             if c["spec"]["kind"] == "huber":
